@@ -82,10 +82,23 @@ class ExtractionError(Exception):
     pass
 
 
+GEN_TUS = {}   # name -> source text of a generated translation unit (mode E2: only #include lines of real headers)
+
+
 def dump(tu, flt, text=None):
-    """AST dump (list of top-level matches) of `tu` (path relative to REPO, or an
-    absolute path of a generated TU) restricted by -ast-dump-filter=flt."""
-    path = tu if os.path.isabs(tu) else os.path.join(REPO, tu)
+    """AST dump (list of top-level matches) of `tu` (path relative to REPO, "gen:<name>" for a generated TU that
+    only #includes real headers) restricted by -ast-dump-filter=flt."""
+    if tu.startswith("gen:"):
+        src = GEN_TUS[tu[4:]]
+        gdir = os.path.join(CACHE, "gen_tu")
+        os.makedirs(gdir, exist_ok=True)
+        path = os.path.join(gdir, tu[4:] + ".cpp")
+        if not os.path.exists(path) or open(path).read() != src:
+            with open(path, "w") as fh:
+                fh.write(src)
+        text = src
+    else:
+        path = tu if os.path.isabs(tu) else os.path.join(REPO, tu)
     key = hashlib.sha256((tree_hash() + "|" + tu + "|" + flt + "|" + (text or "")).encode()).hexdigest()[:32]
     cdir = os.path.join(CACHE, "ast")
     os.makedirs(cdir, exist_ok=True)
@@ -273,6 +286,8 @@ def fn_source(fn):
 
 
 def line_of(n):
+    if not isinstance(n, dict):
+        return None
     for key in ("loc",):
         l = n.get(key)
         if isinstance(l, dict):
